@@ -19,8 +19,8 @@ from sismic.interpreter import Interpreter
 from sismic.model import Statechart, CompoundState, BasicState, FinalState, Transition, Event
 
 BOUNDS = {
-    'quick': {'D1': 2, 'D2': 1, 'D3': 2, 'D4': 3, 'D5': 2, 'D6': 2, 'D7': 2, 'D8': 3},
-    'thorough': {'D1': 3, 'D2': 2, 'D3': 3, 'D4': 4, 'D5': 3, 'D6': 3, 'D7': 3, 'D8': 4},
+    'quick': {'D1': 2, 'D2': 1, 'D3': 2, 'D4': 3, 'D5': 2, 'D6': 2, 'D7': 2, 'D8': 3, 'D9': 2},
+    'thorough': {'D1': 3, 'D2': 2, 'D3': 3, 'D4': 4, 'D5': 3, 'D6': 3, 'D7': 3, 'D8': 4, 'D9': 3},
 }
 _CUR = [None]
 
@@ -94,6 +94,7 @@ class World:
             def __del__(self):
                 pass
         self.runner = R(self.it, interval=0, execute_all=execute_all)
+        self.runner._unpaused.tag = 'unpaused'
         self.queued = []            # serials whose queue() returned, in return order
 
     def consumed(self):
@@ -213,9 +214,20 @@ def D8(w):
     return [c1, c2], {'drain': [], 'two_clients': True}
 
 
-DRIVERS = {'D1': D1, 'D2': D2, 'D3': D3, 'D4': D4, 'D5': D5, 'D6': D6, 'D7': D7, 'D8': D8}
+def D9(w):
+    # events queued while paused, then stop() without unpause(): nothing may be executed any more
+    def client():
+        w.op('start')
+        w.op('pause')
+        w.queue('e', 1)
+        w.queue('e', 2)
+        w.op('stop')
+    return [client], {'drain': []}
+
+
+DRIVERS = {'D9': D9, 'D1': D1, 'D2': D2, 'D3': D3, 'D4': D4, 'D5': D5, 'D6': D6, 'D7': D7, 'D8': D8}
 EXECUTE_ALL = {'D5', 'D7'}
-PREINIT = {'D2', 'D3'}
+PREINIT = {'D2', 'D3', 'D9'}
 
 
 def run_one(dname, prefix):
@@ -291,8 +303,25 @@ def judge(ex):
         out.append(('hooks', 'before_run called %d times, after_run %d times' % (nb, na)))
     if nb > 1 or na > 1:
         out.append(('hooks', 'before_run called %d times, after_run %d times' % (nb, na)))
-    # (6) once pause() has returned at most the cycle under way is executed before unpause()
+    # (6) once pause() has returned at most the cycle already under way is executed before unpause():
+    #     a cycle may start after pause() returned only if the runner had got through the pause gate
+    #     (_unpaused.wait) before; getting through the gate while paused (woken by stop()) and then
+    #     executing is a violation
     if not meta.get('two_clients'):
+        for seq, tid, tag, data in log:
+            if tag != 'before_execute':
+                continue
+            pr = [e[0] for e in log if e[2] == 'pause:return' and e[0] < seq]
+            if not pr:
+                continue
+            pr = pr[-1]
+            if any(e[2] == 'unpause:call' and pr < e[0] < seq for e in log):
+                continue
+            gates = [e[0] for e in log if e[2] == 'gate' and e[3] == 'unpaused' and e[0] < seq]
+            if gates and gates[-1] > pr:
+                out.append(('pause', 'a cycle started after pause() had returned and without unpause(): the paused '
+                            'runner was woken (by stop()) and executed'))
+                break
         pr = next((e[0] for e in log if e[2] == 'pause:return'), None)
         uc = next((e[0] for e in log if e[2] in ('unpause:call', 'stop:call') and pr is not None and e[0] > pr), None)
         if pr is not None:
